@@ -800,8 +800,9 @@ func shiftPairClass(small, big *big.Int) string {
 // reference accepts for every cardinality up to maxN (s^maxN != 1).
 func shiftPalette(c *cx, maxN int) []*big.Int {
 	pal := []*big.Int{nil}
-	for _, v := range []int64{7, 11, 13, 17} {
-		if s := bi(v); c.validShift(s, maxN) && len(pal) < 3 {
+	def := c.dom(1, nil).ref.S // constants equal to the package default would duplicate the nil entry
+	for _, v := range []int64{7, 11, 13, 17, 19} {
+		if s := bi(v); c.validShift(s, maxN) && len(pal) < 3 && c.F.Red(s).Cmp(def) != 0 {
 			pal = append(pal, s)
 		}
 	}
